@@ -11,6 +11,7 @@ import (
 	"bytes"
 	"sort"
 	"strconv"
+	"sync"
 	"time"
 
 	"github.com/fluffle/goirc/client"
@@ -605,8 +606,30 @@ func c01ExecConn(in Fields) Fields {
 	}
 	ch := make(chan *client.Line, 8)
 	var rem []client.Remover
+	// Two foreground handlers per name: the first one scribbles over every field of the line
+	// IT was given and then signals; the recording one waits for that signal before it looks
+	// at its own line, which must still equal the message (each handler owns its line).
+	scribbled := make(chan struct{})
+	var once sync.Once
 	for _, n := range names {
 		rem = append(rem, ws.Conn.HandleFunc(n, func(c *client.Conn, l *client.Line) {
+			for i := range l.Args {
+				l.Args[i] = "scribbled"
+			}
+			for k := range l.Tags {
+				l.Tags[k] = "scribbled"
+			}
+			if l.Tags != nil {
+				l.Tags["scribbled"] = "1"
+			}
+			l.Nick, l.Ident, l.Host, l.Src, l.Cmd, l.Raw = "s", "s", "s", "s", "S", "s"
+			once.Do(func() { close(scribbled) })
+		}))
+		rem = append(rem, ws.Conn.HandleFunc(n, func(c *client.Conn, l *client.Line) {
+			select {
+			case <-scribbled:
+			case <-time.After(3 * time.Second):
+			}
 			cp := l.Copy()
 			select {
 			case ch <- cp:
